@@ -293,6 +293,11 @@ func (r *runner) run(steps []step) int {
 	r.dbase = db.NewMapDB()
 	r.ws = state.NewWorldState(r.dbase, nil, nil, nil, nil)
 	ns := len(steps[0].Sn)
+	for _, st := range steps {
+		if st.S > ns { // a behaviour may name a slot its first record does not list (every slot starts as the initial snapshot)
+			ns = st.S
+		}
+	}
 	r.snaps = make([]state.WorldSnapshot, ns)
 	r.shash = make([][]byte, ns)
 	for i := range r.snaps {
